@@ -542,6 +542,7 @@ class Walker:
         self._site = 0
         self.guards: List[Tuple[Term, bool]] = []
         self.loopstack: List[int] = []
+        self.closures: Dict[int, FunctionInfo] = {}
         self.cont_stack: List[Tuple[int, list]] = []
         self.fnstack: List[FunctionInfo] = []
         self.inlined: List[str] = []
@@ -727,7 +728,11 @@ class Walker:
             self.block(s.finalbody, env)
             return False
         if isinstance(s, (ast.FunctionDef, ast.AsyncFunctionDef)):
-            env[s.name] = ("closure", s.name, self.fnstack[-1].fq)
+            cur = self.fnstack[-1]
+            self._site += 1
+            self.closures[self._site] = FunctionInfo(cur.module, cur.cls, f"{cur.name}.<locals>.{s.name}", s,
+                                                     [unparse(d) for d in s.decorator_list])
+            env[s.name] = ("closure", s.name, cur.fq, self._site)
             self.emit("opaque", s, name="def")
             return None
         if isinstance(s, (ast.Import, ast.ImportFrom, ast.Global, ast.Nonlocal)):
@@ -1114,6 +1119,10 @@ class Walker:
         fn = self.ev(e.func, env)
         args = tuple(self.ev(a, env) for a in e.args)
         kwargs = tuple((k.arg or "**", self.ev(k.value, env)) for k in e.keywords)
+        # local functions: the body is walked in the environment of the call site (same scope)
+        r = self.call_closure(fn, args, kwargs, e, env)
+        if r is not None:
+            return r
         # max/min idioms
         fname = None
         if fn[0] == "mod":
@@ -1174,7 +1183,30 @@ class Walker:
         self.emit("call", e, target=fn, value=t, name=fname or show(fn), args=args, kwargs=kwargs)
         return t
 
-    def inline_call(self, fi: FunctionInfo, recv, args, kwargs, e: ast.Call) -> Term:
+    def call_closure(self, fn: Term, args, kwargs, e: ast.Call, env: Dict[str, Term]) -> Optional[Term]:
+        if fn[0] == "closure" and len(fn) == 4 and fn[3] in self.closures and fn[2] == self.fnstack[-1].fq \
+                and len(self.fnstack) <= self.max_depth + 1:
+            cfi = self.closures[fn[3]]
+            if cfi.decorators or any(isinstance(x, (ast.Nonlocal, ast.Global, ast.Yield, ast.YieldFrom))
+                                     for x in ast.walk(cfi.node)):
+                return None
+            return self.inline_call(cfi, None, args, kwargs, e, outer_env=env)
+        if fn[0] == "sel" and fn[2][0] == "closure" and fn[3][0] == "closure":
+            c = fn[1]
+            self.guards.append((c, True))
+            a = self.call_closure(fn[2], args, kwargs, e, env)
+            self.guards.pop()
+            if a is None:
+                return None
+            self.guards.append((c, False))
+            b = self.call_closure(fn[3], args, kwargs, e, env)
+            self.guards.pop()
+            if b is None:
+                return None
+            return a if a == b else ("sel", c, a, b)
+        return None
+
+    def inline_call(self, fi: FunctionInfo, recv, args, kwargs, e: ast.Call, outer_env=None) -> Term:
         if any(d.split("(")[0].split(".")[-1] not in ("staticmethod", "njit", "jit") for d in fi.decorators):
             # a decorated helper is not its body (memoisation, wrapping, ...): keep the call opaque
             fn = ("attr", recv, fi.name) if recv is not None else ("mod", fi.fq)
@@ -1183,7 +1215,9 @@ class Walker:
             self.invalidate(self.call_writes(fi.name), None, cause="call:" + fi.name)
             return t
         params = fi.params
-        env: Dict[str, Term] = {}
+        env: Dict[str, Term] = dict(outer_env) if outer_env is not None else {}
+        for p in params:
+            env.pop(p, None)
         a = fi.node.args
         defaults = {}
         pos = a.posonlyargs + a.args
